@@ -35,6 +35,8 @@ fixed(["C12"], "later-valid-request-unanswered:*:number-306-digit-integer-to-sex
       "an int of 304-309 digits fits a float and is accepted, but int x unit count is an int beyond the float range: num_to_str raised OverflowError on every rendering in a sexagesimal format (pointed out in a seeding sub-agent's notes on the unmodified code; reproduced by C12, then repaired)")
 fixed(["C09"], "published:more-than-one-on:*:hardware-selector-moved:*", "fix: a switch vector lets all Read handlers run before it renders",
       "switches refreshed by a Read handler (reset_value): when the selection had moved on the hardware, the next setSwitchVector / defSwitchVector showed the old and the new switch On, because elements are rendered one by one while the rule changes their siblings (pointed out in a seeding sub-agent's notes on the unmodified code; reproduced by C09's hardware-selector scenario, then repaired)")
+fixed(["C08"], "blob-after-client-restart-lost", "fix: a client that is started again asks for the BLOBs",
+      "Client.stop() followed by Client.start() on the same object: the devices are kept, none is seen for the first time, so the enableBLOB handshake was never repeated on the new connections and no BLOB reached the client any more (noticed while building the round-10 restart scenario of C01; reproduced by C08's restart phase, then repaired)")
 known("C08", "payload-longer-than-threshold-on-threshold-enabled-link",
       "a BLOB message longer than the 2048-character junk threshold is discarded as junk by a framing buffer whose threshold is enabled "
       "(every client->driver upload on the server side; driver->client on a connection that asked for enableBLOB Also without for_blobs) "
